@@ -71,6 +71,29 @@ func c03Query(l *calendar.Lunar) obj {
 	return q
 }
 
+// perturb makes unrelated calls for neighbouring years between the observed calls, so that a result
+// that depends on what was converted before (a stale table, a cache keyed wrongly) shows up in the frame
+func perturb(c *ctx, y int) {
+	try(func() {
+		switch c.rng.Intn(4) {
+		case 0:
+			if y < 9998 {
+				s, _ := safeSolar(y+1, 1, 5+c.rng.Intn(20), 1, 2, 3)
+				s.GetLunar()
+			}
+		case 1:
+			if y > 1 {
+				s, _ := safeSolar(y-1, 12, 5+c.rng.Intn(20), 1, 2, 3)
+				s.GetLunar()
+			}
+		case 2:
+			calendar.NewLunarYear(y + 1)
+		default:
+			calendar.NewLunarFromYmd(y, 1, 1)
+		}
+	})
+}
+
 func c03Years(c *ctx) {
 	years := c.yearsFor(c03Boundary, c.argInt("years", 200), 1, 9998)
 	nrand := c.argInt("rand", 20)
@@ -83,6 +106,7 @@ func c03Years(c *ctx) {
 		var l0 *calendar.Lunar
 		p, _ := try(func() {
 			jds = calendar.NewLunarYear(y).GetJieQiJulianDays()
+			perturb(c, y)
 			s, _ := safeSolar(y, 6, 15, 12, 0, 0)
 			l0 = s.GetLunar()
 		})
@@ -145,6 +169,9 @@ func c03Years(c *ctx) {
 			}
 			seen[k] = true
 			var l *calendar.Lunar
+			if len(qs)%9 == 4 {
+				perturb(c, y)
+			}
 			pp, _ := try(func() { l = s.GetLunar() })
 			if pp {
 				qs = append(qs, obj{"at": sol(s), "p": 1})
